@@ -95,7 +95,7 @@ func call(f func()) bool {
 }
 
 func (x *c03) concurrent(sc scenario) {
-	x.n++
+	x.bump()
 	n := x.n
 	c := x.c
 	r := c.Rng
@@ -264,9 +264,16 @@ func (x *c03) concurrent(sc scenario) {
 		}
 		p := senderPacket(99, 0, 3)
 		var e1, e2, e3, e4 error
-		ok := call(func() { e1 = conn.Send(p, false) })
-		if ok && e1 == nil {
-			msg = "flushed Send after close returned nil"
+		ok := true
+		flushedProbe := func() {
+			ok = ok && call(func() { e1 = conn.Send(p, false) })
+			if ok && e1 == nil {
+				msg = "flushed Send after close returned nil"
+			}
+		}
+		// (a failed flushed Send kills the buffered writer for good, so the buffered probe comes first in every other scenario)
+		if n%2 == 0 {
+			flushedProbe()
 		}
 		ok = ok && call(func() { e2 = conn.Send(p, true) })
 		if ok && e2 == nil && sc.delay > 0 && sc.delay <= 50*time.Millisecond {
@@ -285,6 +292,9 @@ func (x *c03) concurrent(sc scenario) {
 			// not waited for
 		} else if ok && e2 == nil && sc.delay == 0 {
 			msg = "Send with zero delay after close returned nil"
+		}
+		if n%2 != 0 {
+			flushedProbe()
 		}
 		// Receive: whatever had been buffered, then an error — within as many calls as there were packets
 		gotErr := false
@@ -462,7 +472,7 @@ func (x *c03) gatedIntact() {
 	defer runtime.GOMAXPROCS(old)
 	sizes := []int{4097, 5000, 8192, 20000, 4100, 6000}
 	for round := 0; round < 12; round++ {
-		x.n++
+		x.bump()
 		n := x.n
 		c.Emit("case %d gated round=%d", n, round)
 		size := sizes[round%len(sizes)]
@@ -564,7 +574,7 @@ func (x *c03) closeBehindSend() {
 	c := x.c
 	r := c.Rng
 	for round := 0; round < 8; round++ {
-		x.n++
+		x.bump()
 		n := x.n
 		variant := []string{"encode", "carrier"}[round%2]
 		c.Emit("case %d closebehind round=%d", n, round)
@@ -718,6 +728,7 @@ func (x *c03) concurrentCases() {
 func runC19(c *hx.Ctx) {
 	x := &c03{c: c, oracle: map[string]bool{}, prop: "c19"}
 	defer x.finishPanics()
+	x.startWatchdog(40 * time.Second)
 	if c.Replay != "" {
 		x.replay(c.Replay)
 		return
